@@ -93,6 +93,7 @@ def run(run, ix, tier):
                                            'mpf_pos', 'mpf_sqrt'])
     check_sticky_idioms(run, ix)
     check_tie_masks(run, ix)
+    check_sum_window(run, ix)
 
 
 CONVERTERS = ('from_str', 'from_rational', 'from_Decimal', 'from_man_exp')
@@ -435,3 +436,47 @@ def check_keyword_independence(run, ix, rule):
                     run.ok(rule, '%s reads %r independently' % (f.qualname, key) if n < 12 else None)
     if n < 6:
         raise AnalysisError('keyword parsing sites not found (%d)' % n)
+
+
+# --------------------------------------------------------------------------- U-R1
+def check_sum_window(run, ix):
+    """U-R1.  mpf_sum adds a term exactly only while its exponent is within a window of the running sum's; a term
+    beyond the window replaces (or is dropped from) the sum.  For the statement's operands this must never
+    happen: fsum terms have p-bit mantissas and magnitudes within p bits of each other, so their exponents are
+    less than 2p apart; the products that fdot hands over are EXACT products of two p-bit numbers (found by
+    following fdot's calls: products formed with mpf_mul without a precision), with mantissas of up to 2p bits,
+    so exponents of comparable products can be almost 3p apart.  The window, read from the source as k*prec,
+    must therefore have k >= 2 (+1 for every exact multiplication feeding the sum), i.e. k >= 3."""
+    run.rule('U-R1', floor=2, desc='the exact-accumulation window of mpf_sum covers the exact products of fdot')
+    f = ix.func(LIBMPF, 'mpf_sum')
+    win = [a for a in _walk_own(f.node) if isinstance(a, ast.Assign) and len(a.targets) == 1
+           and norm(a.targets[0]) == 'max_extra_prec']
+    if len(win) != 1:
+        raise AnalysisError('mpf_sum: window assignment not found')
+    v = win[0].value
+    if isinstance(v, ast.BoolOp) and isinstance(v.op, ast.Or):
+        v = v.values[0]
+    k = None
+    if isinstance(v, ast.BinOp) and isinstance(v.op, ast.Mult):
+        for a, b in ((v.left, v.right), (v.right, v.left)):
+            if norm(a) == 'prec' and isinstance(b, ast.Constant) and isinstance(b.value, int):
+                k = b.value
+    if k is None:
+        raise AnalysisError('mpf_sum: window `%s` is not k*prec' % norm(win[0].value))
+    # does fdot feed exact products?
+    g = ix.func('mpmath/ctx_mp_python.py', 'PythonMPContext.fdot')
+    exact_products = [c for c in _walk_own(g.node) if isinstance(c, ast.Call) and norm(c.func) in ('mpf_mul', 'mpf_mul_int')
+                      and len(c.args) == 2 and not c.keywords]
+    sums = [c for c in _walk_own(g.node) if isinstance(c, ast.Call) and norm(c.func) == 'mpf_sum']
+    if not sums:
+        raise AnalysisError('fdot: mpf_sum call not found')
+    need = 3 if exact_products else 2
+    run.ok('U-R1', 'fdot hands mpf_sum %d kinds of exact products (2p-bit mantissas)' % len(exact_products))
+    if k >= need:
+        run.ok('U-R1', 'mpf_sum adds exactly within %d*prec bits (needed: %d*prec)' % (k, need))
+    else:
+        run.fail(Finding('U-R1', LIBMPF, 'mpf_sum', norm(win[0]), 'terms whose exponents are more than %d*prec apart '
+                         'are not added exactly, but fdot sums exact products with 2*prec-bit mantissas, whose exponents '
+                         'can be almost 3*prec apart at comparable magnitude: a running sum that cancelled to a small '
+                         'value is replaced by the next product (fdot([2**53-2, 2**53-1, 2**80, 2**80], [2**53-2, '
+                         '-(2**53-3), 2**76, -2**76]) == 0, exact value 1)' % k, line=win[0].lineno))
